@@ -8,6 +8,7 @@ import (
 	"encoding/json"
 	"fmt"
 	"io"
+	"math"
 	"math/rand"
 	"os"
 	"os/exec"
@@ -98,9 +99,76 @@ type Ctx struct {
 	Verbose bool
 	// Why is set by an Eval that returns nil to say why the line was not evaluated (read and reset by Drop).
 	Why string
+	// Sharding (VERIF_SHARD="k/N", set by ./check for the properties with "shards" in checks.json): N harness
+	// processes run side by side, each evaluates the generator units u with u % N == k and ./check adds the results
+	// up.  A generator draws from c.Rnd for EVERY unit (so that all shards see the same stream) and only skips the
+	// evaluation of units that are not its own.  Replay runs are never sharded.
+	Shard, Shards int
+	unit          int
+	// pipelining: the batch handed to the model process while the generator goes on (joined by the next flush)
+	inflight *inflight
+	runner   *modelRunner
+	lastAdd  time.Time
+	classSec map[string]float64
+	modelSec float64
+}
+
+type inflight struct {
+	cases []Case
+	ch    chan []string
+}
+
+// modelRunner: the two goroutines that run the model processes of the pipelined batches.  They are started with the
+// context and live for the whole run, so the number of goroutines of the process does not change when a batch
+// starts or ends - several generators count goroutines around a call of the library (leak checks, "wait until the
+// senders the handler started are gone").
+type modelRunner struct {
+	jobs   chan *inflight
+	writes chan writeJob
+}
+
+type writeJob struct {
+	w     io.WriteCloser
+	cases []Case
+}
+
+func writeCases(j writeJob) {
+	w := bufio.NewWriterSize(j.w, 1<<20)
+	for _, cs := range j.cases {
+		w.WriteString(cs.Line)
+		w.WriteByte('\n')
+	}
+	w.Flush()
+	j.w.Close()
+}
+
+func startRunner(model string) *modelRunner {
+	r := &modelRunner{jobs: make(chan *inflight), writes: make(chan writeJob)}
+	go func() {
+		for j := range r.writes {
+			writeCases(j)
+		}
+	}()
+	go func() {
+		for f := range r.jobs {
+			f.ch <- runModel(model, f.cases, func(j writeJob) { r.writes <- j })
+		}
+	}()
+	return r
 }
 
 func NewCtx(prop string, seed int64, tier, model, corpus string) *Ctx {
+	c := newCtx(prop, seed, tier, model, corpus)
+	c.runner = startRunner(model)
+	if k, n := 0, 0; os.Getenv("VERIF_SHARD") != "" {
+		if _, err := fmt.Sscanf(os.Getenv("VERIF_SHARD"), "%d/%d", &k, &n); err == nil && n > 1 && k >= 0 && k < n {
+			c.Shard, c.Shards = k, n
+		}
+	}
+	return c
+}
+
+func newCtx(prop string, seed int64, tier, model, corpus string) *Ctx {
 	return &Ctx{Prop: prop, Seed: seed, Tier: tier, Rnd: rand.New(rand.NewSource(seed)), Model: model, Corpus: corpus,
 		Known: map[string]bool{},
 		Res: &Result{Property: prop, Seed: seed, Tier: tier, Classes: map[string]int{}, ClassMaxBytes: map[string]int{}, ImplKinds: map[string]int{},
@@ -122,6 +190,15 @@ func (c *Ctx) Drop(class, why string) {
 	}
 	c.Res.Dropped[class+": "+why]++
 }
+
+// Mine: is generator unit u evaluated by this process (always, when the run is not sharded).
+func (c *Ctx) Mine(u int) bool { return c.Shards <= 1 || u%c.Shards == c.Shard }
+
+// NextMine numbers the units itself (round robin over the calls).
+func (c *Ctx) NextMine() bool { c.unit++; return c.Mine(c.unit - 1) }
+
+// First: the shard that runs what is not split (stages of a few cases, the schedule search).
+func (c *Ctx) First() bool { return c.Shards <= 1 || c.Shard == 0 }
 
 func (c *Ctx) Thorough() bool { return c.Tier == "thorough" }
 
@@ -160,10 +237,17 @@ func (c *Ctx) RandBytes(n int) []byte {
 // Add queues a case; batches are flushed to the model automatically.
 func (c *Ctx) Add(cs Case) {
 	atomic.AddInt64(&progress, 1)
+	now := time.Now()
+	if c.classSec == nil {
+		c.classSec = map[string]float64{}
+	} else {
+		c.classSec[cs.Class] += now.Sub(c.lastAdd).Seconds() // generation + evaluation on the implementation, per class (evidence: seconds_by_class)
+	}
 	c.batch = append(c.batch, cs)
 	if len(c.batch) >= 20000 {
-		c.Flush()
+		c.flushAsync()
 	}
+	c.lastAdd = time.Now()
 }
 
 // maxHexBytes: length in bytes of the longest token of the line that consists of hex digits only
@@ -196,13 +280,41 @@ func kindOf(s string) string {
 	return "value"
 }
 
-// Flush pipes the queued lines through pktmodel and compares.
+// Flush pipes the queued lines through pktmodel and compares; when it returns every case added so far is judged.
 func (c *Ctx) Flush() {
+	c.flushAsync()
+	c.join()
+}
+
+// flushAsync hands the queued lines to a model process of their own and returns: the model works on batch k while
+// the generator evaluates batch k+1 on the implementation.  The comparison and the oracles of a batch run on the
+// caller's goroutine (join), in the order the cases were added, exactly as before - only the external process overlaps.
+func (c *Ctx) flushAsync() {
+	c.join()
 	if len(c.batch) == 0 {
 		return
 	}
-	replies := RunModel(c.Model, c.batch)
-	for i, cs := range c.batch {
+	f := &inflight{cases: c.batch, ch: make(chan []string, 1)}
+	c.batch = nil
+	c.runner.jobs <- f
+	c.inflight = f
+}
+
+// join waits for the batch in flight and judges it.
+func (c *Ctx) join() {
+	f := c.inflight
+	if f == nil {
+		return
+	}
+	c.inflight = nil
+	t0 := time.Now()
+	replies := <-f.ch
+	c.modelSec += time.Since(t0).Seconds()
+	c.judge(f.cases, replies)
+}
+
+func (c *Ctx) judge(batch []Case, replies []string) {
+	for i, cs := range batch {
 		r := c.Res
 		r.Evaluations++
 		r.Classes[cs.Class]++
@@ -242,11 +354,14 @@ func (c *Ctx) Flush() {
 			fmt.Fprintf(Out, "%s\n  impl : %s\n  model: %s\n  oracle: %q %s\n", cs.Line, cs.Impl, replies[i], orc, kid)
 		}
 	}
-	c.batch = c.batch[:0]
 }
 
 // RunModel runs the lines through the model process and returns one reply per line.
 func RunModel(model string, cases []Case) []string {
+	return runModel(model, cases, func(j writeJob) { go writeCases(j) })
+}
+
+func runModel(model string, cases []Case, write func(writeJob)) []string {
 	cmd := exec.Command(model)
 	stdin, _ := cmd.StdinPipe()
 	stdout, _ := cmd.StdoutPipe()
@@ -255,15 +370,7 @@ func RunModel(model string, cases []Case) []string {
 		fmt.Fprintln(os.Stderr, "cannot start model:", err)
 		os.Exit(3)
 	}
-	go func() {
-		w := bufio.NewWriterSize(stdin, 1<<20)
-		for _, cs := range cases {
-			w.WriteString(cs.Line)
-			w.WriteByte('\n')
-		}
-		w.Flush()
-		stdin.Close()
-	}()
+	write(writeJob{w: stdin, cases: cases})
 	out := make([]string, 0, len(cases))
 	sc := bufio.NewScanner(stdout)
 	sc.Buffer(make([]byte, 1<<20), 1<<26)
@@ -389,6 +496,14 @@ func (c *Ctx) Watch(out string, limit time.Duration, blocking bool) {
 // Finish writes the result file.
 func (c *Ctx) Finish(out string) {
 	c.Flush()
+	if _, ok := c.Res.Extra["seconds_by_class"]; !ok && len(c.classSec) > 0 {
+		sec := map[string]float64{}
+		for k, v := range c.classSec {
+			sec[k] = math.Round(v*10) / 10
+		}
+		c.Res.Extra["seconds_by_class"] = sec
+		c.Res.Extra["seconds_waiting_for_model"] = math.Round(c.modelSec*10) / 10
+	}
 	c.Res.Distinct = len(c.Res.distinct)
 	if v, ok := c.Res.Extra["distinct_override"].(int); ok {
 		c.Res.Distinct = v
